@@ -39,6 +39,13 @@ Theorem C17_continued_statements_height_list : forall n,
 Proof. exact continued_statements_height_list. Qed.
 Print Assumptions C17_continued_statements_height_list.
 
+
+(* the same after `if c(1): return` in a function body (def f(): <guard>; n statements): height 8 for EVERY n *)
+Theorem C17_returned_statements_height_list : forall n,
+  exists e, lower_module cfg_list fun_symtab (ret_prog n) = inl e /\ height e <= 8.
+Proof. exact returned_statements_height_list. Qed.
+Print Assumptions C17_returned_statements_height_list.
+
 Example C17_guard_nonvacuous : exists e, lower_module cfg_list top_symtab (guard_prog 40) = inl e /\ height e = 7.
 Proof. eexists. split; [vm_compute; reflexivity|vm_compute; reflexivity]. Qed.
 
